@@ -41,7 +41,8 @@ def main():
         wt = "/tmp/wt/eval-%s-%d" % (name, os.getpid())
         rc, o = sh("git -C /repo worktree add --detach %s HEAD -q" % wt, "/")
         try:
-            demo = meta.get("demo_cmd")
+            import re
+            demo = re.split(r"\s{2,}\(", meta.get("demo_cmd"))[0]  # drop a trailing parenthetical remark
             # 1. the change alone: it must build and the repository's own suite must pass
             rca, oa = sh("git apply %s" % patch, wt)
             rcb, ob = sh("go build ./... && go test -count=1 ./... 2>&1 | grep -v 'no test files'", wt)
